@@ -4,9 +4,11 @@ import MuscleModel.Props.C01
 set_option linter.unusedSimpArgs false
 set_option linter.unusedVariables false
 
-/-! The frame round trip of the binary gateway: feeding `frame m` (8-byte header, then the flattened
-Message) to the receiver — byte by byte, hence by `binRx_refines` in ANY segmentation — delivers exactly
-`tripMsg m` and returns the receiver to its initial state.  Uses C01 (`decode (encode m) = tripMsg m`). -/
+/-! The frame round trip of the binary gateway: feeding a frame (8-byte header, then the body) to the
+receiver — byte by byte, hence by `binRx_refines` in ANY segmentation — delivers exactly the Message
+the body stands for and returns the receiver to its initial state.  Plain frames: C01
+(`decode (encode m) = tripMsg m`).  zlib-flagged frames: the codec is an opaque pair of functions of
+which only `inflate (deflate x) = x` is assumed (`CodecOK`). -/
 
 namespace Muscle.Gateway
 open Muscle Muscle.Wire Muscle.Gen
@@ -15,8 +17,21 @@ structure BinParams.OK (P : BinParams) : Prop where
   hs8 : P.hs = 8
   scratch : 8 < P.scratch
 
-/-- Messages the link is specified for: C01's well-formedness, within the nesting limit, within the
-    receiver's size limit and the 32-bit length field -/
+/-- the only thing assumed of zlib: what `Deflate` at level 1..9 produces, `Inflate` (selected by the encoding id) restores -/
+def CodecOK (P : BinParams) : Prop :=
+  ∀ (lvl : Nat) (x : Bytes), 1 ≤ lvl → lvl ≤ 9 → P.inflate (encodingDefault + lvl) (P.deflate lvl x) = some x
+
+/-- the body `frameZ` sends -/
+def bodyZ (P : BinParams) (lvl : Nat) (m : Msg) : Bytes :=
+  if lvl ≠ 0 ∧ 32 ≤ P.hs + (encode m).length then P.deflate lvl (encode m) else encode m
+
+/-- Messages the link is specified for: C01's well-formedness, within the nesting limit; the body as sent is
+    non-empty, within the receiver's size limit and the 32-bit length field -/
+def frameOKZ (P : BinParams) (lvl : Nat) (m : Msg) : Prop :=
+  wfMsg m ∧ depthMsg m ≤ P.mx ∧ 0 < (bodyZ P lvl m).length ∧ (bodyZ P lvl m).length ≤ P.maxIn ∧
+    8 + (bodyZ P lvl m).length < 4294967296
+
+/-- …for the default encoding -/
 def frameOK (P : BinParams) (m : Msg) : Prop :=
   wfMsg m ∧ depthMsg m ≤ P.mx ∧ (encode m).length ≤ P.maxIn ∧ 8 + (encode m).length < 4294967296
 
@@ -40,20 +55,24 @@ theorem encode_length_pos (m : Msg) : 12 ≤ (encode m).length := by
   | mk w fs => simp [encode, encMsg]; omega
 
 theorem encDefault_lt : encodingDefault < 4294967296 := by decide
-theorem encDefault_range : encodingDefault ≤ encodingDefault ∧ encodingDefault < encodingEndMarker := by decide
+theorem encEnd_lt : encodingEndMarker < 4294967296 := by decide
+theorem encEnd_eq : encodingEndMarker = encodingDefault + 10 := by decide
 
-/-- state after the 8 header bytes of `frame m` -/
-def afterHeader (m : Msg) : BinRx :=
-  { buf := le32 (encode m).length ++ le32 encodingDefault, cap := 8 + (encode m).length, err := false }
+/-- a valid encoding id: `MUSCLE_MESSAGE_ENCODING_DEFAULT ≤ e < MUSCLE_MESSAGE_ENCODING_END_MARKER` -/
+def encValid (e : Nat) : Prop := encodingDefault ≤ e ∧ e < encodingEndMarker
 
-theorem hdr_bodySize (n : Nat) (hl32 : n < 4294967296) :
-    bodySizeOf (le32 n ++ le32 encodingDefault) = some n := by
-  have h1 := hdr_take n encodingDefault []
-  have h2 := hdr_drop_take n encodingDefault []
+theorem hdr_bodySize (n e : Nat) (hl32 : n < 4294967296) (he : encValid e) :
+    bodySizeOf (le32 n ++ le32 e) = some n := by
+  have h1 := hdr_take n e []
+  have h2 := hdr_drop_take n e []
+  have he32 : e < 4294967296 := Nat.lt_trans he.2 encEnd_lt
   simp only [List.append_nil] at h1 h2
-  simp only [bodySizeOf, h1, h2, leVal_le32 _ hl32, leVal_le32 _ encDefault_lt]
-  have := encDefault_range
-  simp only [this.1, this.2, and_self, if_true]
+  simp only [bodySizeOf, h1, h2, leVal_le32 _ hl32, leVal_le32 _ he32]
+  simp only [he.1, he.2, and_self, if_true]
+
+/-- state after the 8 header bytes of `frameOf e body` -/
+def afterHeader (e : Nat) (body : Bytes) : BinRx :=
+  { buf := le32 body.length ++ le32 e, cap := 8 + body.length, err := false }
 
 /-- header phase, symbolic: the chunk completes a valid header of a non-empty body -/
 theorem binOnRead_hdr (P : BinParams) (s : BinRx) (c : Bytes) (bs : Nat)
@@ -72,84 +91,133 @@ theorem binOnRead_body (P : BinParams) (s : BinRx) (c : Bytes) (m : Msg)
   unfold binOnRead
   simp only [h1, if_false, binComplete, hfull, if_true, hu]
 
-theorem onRead_header (P : BinParams) (hP : P.OK) (m : Msg) (hm : frameOK P m) :
-    binOnRead P (binInitRx P) (le32 (encode m).length ++ le32 encodingDefault) = (afterHeader m, []) := by
-  obtain ⟨_, _, hmax, h32⟩ := hm
-  have hlen := encode_length_pos m
-  have hbody := hdr_bodySize (encode m).length (by omega)
-  have hl8 : (le32 (encode m).length ++ le32 encodingDefault).length = 8 := by simp
+theorem onRead_header (P : BinParams) (hP : P.OK) (e : Nat) (body : Bytes) (he : encValid e)
+    (hpos : 0 < body.length) (hmax : body.length ≤ P.maxIn) (h32 : 8 + body.length < 4294967296) :
+    binOnRead P (binInitRx P) (le32 body.length ++ le32 e) = (afterHeader e body, []) := by
+  have hbody := hdr_bodySize body.length e (by omega) he
+  have hl8 : (le32 body.length ++ le32 e).length = 8 := by simp
   have hs8 := hP.hs8
-  have e := binOnRead_hdr P (binInitRx P) (le32 (encode m).length ++ le32 encodingDefault) (encode m).length
+  have e1 := binOnRead_hdr P (binInitRx P) (le32 body.length ++ le32 e) body.length
     (by show ([] : Bytes).length < P.hs; rw [hs8]; exact Nat.zero_lt_succ 7)
     (by show ¬ (([] : Bytes) ++ _).length < P.hs; rw [List.nil_append, hl8, hs8]; omega)
     (by show bodySizeOf (([] : Bytes) ++ _) = _; rw [List.nil_append]; exact hbody)
     (by rw [hs8]; omega)
     (by show ¬ (([] : Bytes) ++ _).length = _; rw [List.nil_append, hl8, hs8]; omega)
     (by show (([] : Bytes) ++ _).take P.hs = ([] : Bytes) ++ _; rw [List.nil_append]; exact List.take_of_length_le (by rw [hl8, hs8]; omega))
-  rw [e]
-  show ({ buf := ([] : Bytes) ++ _, cap := P.hs + _, err := false }, []) = (afterHeader m, [])
+  rw [e1]
+  show ({ buf := ([] : Bytes) ++ _, cap := P.hs + _, err := false }, []) = (afterHeader e body, [])
   rw [List.nil_append, hs8]
   rfl
 
-theorem onRead_body (P : BinParams) (hP : P.OK) (m : Msg) (hm : frameOK P m) :
-    binOnRead P (afterHeader m) (encode m) = (binInitRx P, [tripMsg m]) := by
-  obtain ⟨hwf, hd, _, _⟩ := hm
-  have hdec := Muscle.Props.C01.decode_encode P.mx m hwf hd
-  have h2 := hdr_drop_take (encode m).length encodingDefault (encode m)
-  have h3 := hdr_drop8 (encode m).length encodingDefault (encode m)
-  have hs8 := hP.hs8
-  have hl8 : (le32 (encode m).length ++ le32 encodingDefault).length = 8 := by simp
-  have hu : unframe P ((le32 (encode m).length ++ le32 encodingDefault) ++ encode m) = some (tripMsg m) := by
-    rw [List.append_assoc]
-    unfold unframe
-    simp only [h2, leVal_le32 _ encDefault_lt, if_true]
-    rw [hs8, h3]
-    exact hdec
-  have e := binOnRead_body P (afterHeader m) (encode m) (tripMsg m)
-    (by show ¬ (le32 (encode m).length ++ le32 encodingDefault).length < P.hs; rw [hl8, hs8]; omega)
-    (by show ((le32 (encode m).length ++ le32 encodingDefault) ++ encode m).length = 8 + (encode m).length
-        rw [List.length_append, hl8])
-    hu
-  rw [e]
+/-- what `UnflattenHeaderAndMessage` makes of a complete frame -/
+theorem unframe_frameOf (P : BinParams) (hP : P.OK) (e : Nat) (body : Bytes) (he : e < 4294967296) :
+    unframe P (frameOf e body) =
+      if e = encodingDefault then decode P.mx body
+      else match P.inflate e body with
+        | some raw => decode P.mx raw
+        | none => none := by
+  have h2 := hdr_drop_take body.length e body
+  have h3 := hdr_drop8 body.length e body
+  unfold unframe frameOf
+  simp only [h2, leVal_le32 _ he, hP.hs8, h3]
   rfl
 
-theorem bin_frame_roundtrip (P : BinParams) (hP : P.OK) (m : Msg) (hm : frameOK P m) (rest : Bytes) :
-    feedBy (binStep P) (binInitRx P) (frame m ++ rest) =
-      ((feedBy (binStep P) (binInitRx P) rest).1, tripMsg m :: (feedBy (binStep P) (binInitRx P) rest).2) := by
+theorem onRead_body (P : BinParams) (hP : P.OK) (e : Nat) (body : Bytes) (m : Msg)
+    (hu : unframe P (frameOf e body) = some m) :
+    binOnRead P (afterHeader e body) body = (binInitRx P, [m]) := by
+  have hs8 := hP.hs8
+  have hl8 : (le32 body.length ++ le32 e).length = 8 := by simp
+  have hu' : unframe P ((le32 body.length ++ le32 e) ++ body) = some m := by
+    rw [List.append_assoc]; exact hu
+  have e1 := binOnRead_body P (afterHeader e body) body m
+    (by show ¬ (le32 body.length ++ le32 e).length < P.hs; rw [hl8, hs8]; omega)
+    (by show ((le32 body.length ++ le32 e) ++ body).length = 8 + body.length
+        rw [List.length_append, hl8])
+    hu'
+  rw [e1]
+  rfl
+
+/-- any frame whose body the parser accepts as `m`: fed byte by byte it delivers `m` and leaves the receiver idle -/
+theorem bin_frameOf_roundtrip (P : BinParams) (hP : P.OK) (e : Nat) (body : Bytes) (m : Msg) (he : encValid e)
+    (hpos : 0 < body.length) (hmax : body.length ≤ P.maxIn) (h32 : 8 + body.length < 4294967296)
+    (hu : unframe P (frameOf e body) = some m) (rest : Bytes) :
+    feedBy (binStep P) (binInitRx P) (frameOf e body ++ rest) =
+      ((feedBy (binStep P) (binInitRx P) rest).1, m :: (feedBy (binStep P) (binInitRx P) rest).2) := by
   have hP' : 0 < P.hs ∧ P.hs < P.scratch := by rw [hP.hs8]; exact ⟨by omega, hP.scratch⟩
   have hinit : binInv P (binInitRx P) := by
     constructor
     · intro _; rfl
     · intro h; simp [binInitRx, hP.hs8] at h
-  -- header
-  have hroom1 : (le32 (encode m).length ++ le32 encodingDefault).length ≤ binRoom P (binInitRx P) := by
+  have hroom1 : (le32 body.length ++ le32 e).length ≤ binRoom P (binInitRx P) := by
     simp [binRoom, binInitRx, hP.hs8]
   obtain ⟨a1, a2⟩ := binRead P hP' _ _ hinit hroom1
-  rw [onRead_header P hP m hm] at a1 a2
-  -- body
-  have hinv2 : binInv P (afterHeader m) := by
+  rw [onRead_header P hP e body he hpos hmax h32] at a1 a2
+  have hinv2 : binInv P (afterHeader e body) := by
     have := binOnRead_inv P hP' _ _ hinit hroom1
-    rw [onRead_header P hP m hm] at this
+    rw [onRead_header P hP e body he hpos hmax h32] at this
     exact this
-  have hroom2 : (encode m).length ≤ binRoom P (afterHeader m) := by
+  have hroom2 : body.length ≤ binRoom P (afterHeader e body) := by
     simp [binRoom, afterHeader, hP.hs8]
   obtain ⟨b1, b2⟩ := binRead P hP' _ _ hinv2 hroom2
-  rw [onRead_body P hP m hm] at b1 b2
-  have hsplit : frame m ++ rest = (le32 (encode m).length ++ le32 encodingDefault) ++ (encode m ++ rest) := by
-    simp [frame]
+  rw [onRead_body P hP e body m hu] at b1 b2
+  have hsplit : frameOf e body ++ rest = (le32 body.length ++ le32 e) ++ (body ++ rest) := by
+    simp [frameOf]
   rw [hsplit, feedBy_append, ← a1, ← a2, feedBy_append, ← b1, ← b2]
   simp
 
+theorem encValid_default : encValid encodingDefault := by unfold encValid; decide
+
+theorem encValid_level (lvl : Nat) (h : lvl ≤ 9) : encValid (encodingDefault + lvl) := by
+  unfold encValid; rw [encEnd_eq]; omega
+
+/-- plain frame -/
+theorem bin_frame_roundtrip (P : BinParams) (hP : P.OK) (m : Msg) (hm : frameOK P m) (rest : Bytes) :
+    feedBy (binStep P) (binInitRx P) (frame m ++ rest) =
+      ((feedBy (binStep P) (binInitRx P) rest).1, tripMsg m :: (feedBy (binStep P) (binInitRx P) rest).2) := by
+  obtain ⟨hwf, hd, hmax, h32⟩ := hm
+  have hlen := encode_length_pos m
+  have hu : unframe P (frameOf encodingDefault (encode m)) = some (tripMsg m) := by
+    rw [unframe_frameOf P hP _ _ encDefault_lt]
+    simp only [if_true]
+    exact Muscle.Props.C01.decode_encode P.mx m hwf hd
+  exact bin_frameOf_roundtrip P hP encodingDefault (encode m) (tripMsg m) encValid_default (by omega) hmax h32 hu rest
+
+/-- the frame `FlattenHeaderAndMessage` builds for outgoing level `lvl` (0 = default, 1..9 = zlib), compressed or not -/
+theorem bin_frameZ_roundtrip (P : BinParams) (hP : P.OK) (hC : CodecOK P) (lvl : Nat) (hl : lvl ≤ 9) (m : Msg)
+    (hm : frameOKZ P lvl m) (rest : Bytes) :
+    feedBy (binStep P) (binInitRx P) (frameZ P lvl m ++ rest) =
+      ((feedBy (binStep P) (binInitRx P) rest).1, tripMsg m :: (feedBy (binStep P) (binInitRx P) rest).2) := by
+  obtain ⟨hwf, hd, hpos, hmax, h32⟩ := hm
+  have hdec := Muscle.Props.C01.decode_encode P.mx m hwf hd
+  by_cases hz : lvl ≠ 0 ∧ 32 ≤ P.hs + (encode m).length
+  · have hb : bodyZ P lvl m = P.deflate lvl (encode m) := by unfold bodyZ; rw [if_pos hz]
+    have hf : frameZ P lvl m = frameOf (encodingDefault + lvl) (P.deflate lvl (encode m)) := by unfold frameZ; rw [if_pos hz]
+    rw [hb] at hpos hmax h32
+    have he := encValid_level lvl hl
+    have hne : ¬ (encodingDefault + lvl = encodingDefault) := by omega
+    have hu : unframe P (frameOf (encodingDefault + lvl) (P.deflate lvl (encode m))) = some (tripMsg m) := by
+      rw [unframe_frameOf P hP _ _ (Nat.lt_trans he.2 encEnd_lt)]
+      simp only [hne, if_false, hC lvl (encode m) (by omega) hl]
+      exact hdec
+    rw [hf]
+    exact bin_frameOf_roundtrip P hP _ _ (tripMsg m) he hpos hmax h32 hu rest
+  · have hb : bodyZ P lvl m = encode m := by unfold bodyZ; rw [if_neg hz]
+    have hf : frameZ P lvl m = frame m := by unfold frameZ; rw [if_neg hz]
+    rw [hb] at hpos hmax h32
+    rw [hf]
+    exact bin_frame_roundtrip P hP m ⟨hwf, hd, hmax, h32⟩ rest
+
 /-- a whole queue of frames, back to back -/
-theorem bin_stream_roundtrip (P : BinParams) (hP : P.OK) : ∀ (ms : List Msg), (∀ m ∈ ms, frameOK P m) →
-    feedBy (binStep P) (binInitRx P) (streamOf frame ms) = (binInitRx P, ms.map tripMsg) := by
+theorem bin_stream_roundtrip (P : BinParams) (hP : P.OK) (hC : CodecOK P) (lvl : Nat) (hl : lvl ≤ 9) :
+    ∀ (ms : List Msg), (∀ m ∈ ms, frameOKZ P lvl m) →
+    feedBy (binStep P) (binInitRx P) (streamOf (frameZ P lvl) ms) = (binInitRx P, ms.map tripMsg) := by
   intro ms
   induction ms with
   | nil => intro _; simp [streamOf, feedBy]
   | cons m r ih =>
     intro h
     simp only [streamOf]
-    rw [bin_frame_roundtrip P hP m (h m (by simp)), ih (fun x hx => h x (by simp [hx]))]
+    rw [bin_frameZ_roundtrip P hP hC lvl hl m (h m (by simp)), ih (fun x hx => h x (by simp [hx]))]
     simp
 
 end Muscle.Gateway
